@@ -391,36 +391,50 @@ def run(ctx):
         ctx.ok("R4.2", "CT_TextLineBreak.text", sample={"reads_as": "VT"})
     else:
         ctx.violation("R4.2", "CT_TextLineBreak.text", "a line break reads back as %r, not VT" % rets, file=br_c.file, line=bt.line if bt else br_c.line)
+    from sa.idioms import join_reader, returned_exprs
+    from sa.pysrc import ClassRef
+
     cc = par_c.methods.get("content_children")
-    content = set()
-    doc_order = False
-    for n in ast.walk(cc.node) if cc else []:
-        if isinstance(n, ast.GeneratorExp) and dotted(n.generators[0].iter) == "self" and len(n.generators[0].ifs) == 1:
-            t = n.generators[0].ifs[0]
-            if isinstance(t, ast.Call) and dotted(t.func) == "isinstance" and isinstance(t.args[1], ast.Tuple):
-                content = {dotted(e) for e in t.args[1].elts}
-                doc_order = dotted(n.elt) == n.generators[0].target.id
+    if cc is None:
+        raise AnalysisError("anchor vanished: CT_TextParagraph.content_children")
+    content, doc_order, seen_cc = set(), False, False
+    _fx, rets = returned_exprs(prog, cc)
+    for v in rets:
+        g = v.args[0] if isinstance(v, ast.Call) and dotted(v.func) in ("tuple", "list") and v.args else v
+        if isinstance(g, (ast.GeneratorExp, ast.ListComp)) and len(g.generators) == 1 and dotted(g.generators[0].iter) == "self" \
+                and len(g.generators[0].ifs) == 1:
+            t = g.generators[0].ifs[0]
+            if isinstance(t, ast.Call) and dotted(t.func) == "isinstance" and len(t.args) == 2 and dotted(t.args[0]) == g.generators[0].target.id:
+                kinds = prog.const(t.args[1], cc.module, None, par_c)
+                kinds = kinds if isinstance(kinds, (tuple, list)) else (kinds,)
+                if all(isinstance(k, ClassRef) for k in kinds):
+                    seen_cc = True
+                    content = {k.cls.name for k in kinds}
+                    doc_order = dotted(g.elt) == g.generators[0].target.id
     want_c = {"CT_RegularTextRun", "CT_TextLineBreak", "CT_TextField"}
-    if content == want_c and doc_order:
+    if not seen_cc:
+        ctx.error("CT_TextParagraph.content_children", "selection of the content children not recognised")
+    elif content == want_c and doc_order:
         ctx.ok("R4.2", "content_children", sample={"classes": sorted(content), "order": "document order"})
     else:
         ctx.violation("R4.2", "content_children", "paragraph content is %s (document order: %s), expected a:r, a:br, a:fld in document order" % (
-            sorted(content), doc_order), file=par_c.file, line=cc.line if cc else par_c.line)
+            sorted(content), doc_order), file=par_c.file, line=cc.line)
     for cls, f in ((par_c, par_c.methods.get("text")), (tt.classes.get("_Paragraph"), tt.classes.get("_Paragraph").methods.get("text"))):
         key = "%s.text.getter" % cls.name
-        good = False
-        for n in ast.walk(f.node) if f else []:
-            if isinstance(n, ast.Return) and isinstance(n.value, ast.Call) and isinstance(n.value.func, ast.Attribute) and n.value.func.attr == "join" \
-                    and prog.const(n.value.func.value, f.module) == "":
-                g = n.value.args[0]
-                if isinstance(g, (ast.ListComp, ast.GeneratorExp)) and not g.generators[0].ifs and dotted(g.generators[0].iter).endswith("content_children") \
-                        and isinstance(g.elt, ast.Attribute) and g.elt.attr == "text" and dotted(g.elt.value) == g.generators[0].target.id:
-                    good = True
-        if good:
+        if f is None:
+            raise AnalysisError("anchor vanished: %s.text" % cls.name)
+        jr = join_reader(prog, f)
+        _fx2, rets2 = returned_exprs(prog, f)
+        delegates = cls is not par_c and len(rets2) == 1 and ast.unparse(rets2[0]) in ("self._p.text", "self._element.text")
+        if delegates:
+            ctx.ok("R4.2", key, sample={"reads": "the a:p element's own text"})
+        elif jr is None:
+            ctx.error(key, "paragraph reader not recognised (expected ''.join(child.text for child in content_children))")
+        elif jr["sep"] == "" and jr["elt"] == "_.text" and (jr["terminal"] or "").endswith("content_children") and not jr["filtered"]:
             ctx.ok("R4.2", key, sample={"reads": "''.join(child.text for child in content_children)"})
         else:
-            ctx.violation("R4.2", key, "paragraph reader is not the plain concatenation of its content children's text", file=f.file if f else cls.file,
-                          line=f.line if f else cls.line)
+            ctx.violation("R4.2", key, "paragraph reader is not the plain concatenation of its content children's text (%s)" % jr,
+                          file=f.file, line=f.line)
 
     # -- R4.3 --------------------------------------------------------------------------------------------
     ctx.rule("R4.3", "frame level: split on LF; old paragraphs removed; one paragraph per segment; reader joins with LF")
@@ -428,7 +442,13 @@ def run(ctx):
     ts, tg = (tf.setters.get("text"), tf.methods.get("text")) if tf else (None, None)
     if not (ts and tg):
         raise AnalysisError("anchor vanished: TextFrame.text")
-    body = [s for s in ts.node.body if not (isinstance(s, ast.Expr) and isinstance(s.value, ast.Constant))]
+    from sa import inline as _inl
+    from sa.inline import expand as _expand
+    from sa.types import Types as _Types
+
+    _inl.use_types(_Types(prog, M))   # calls on typed receivers (txBody.add_p_containing(text)) resolve to their method
+    tsx = _expand(prog, ts, skip_names=("clear_content", "add_p", "append_text"))   # helpers inlined down to the rule's vocabulary
+    body = [s for s in tsx.body if not (isinstance(s, ast.Expr) and isinstance(s.value, ast.Constant))]
     loops = [(i, s) for i, s in enumerate(body) if isinstance(s, ast.For)]
     clear_i = next((i for i, s in enumerate(body) if isinstance(s, ast.Expr) and isinstance(s.value, ast.Call)
                     and (dotted(s.value.func) or "").endswith("clear_content")), None)
@@ -461,24 +481,27 @@ def run(ctx):
     else:
         ctx.ok("R4.3", "TextFrame.text.setter", sample={"split": "LF", "per_segment": "add_p(); append_text(segment)", "first": "clear_content()"})
     cl = body_c.methods.get("clear_content")
+    if cl is None:
+        raise AnalysisError("anchor vanished: CT_TextBody.clear_content")
+    clx = _expand(prog, cl, skip_names=("remove", "remove_all"))
     good = any(isinstance(n, ast.For) and dotted(n.iter) == "self.p_lst" and any(
-        isinstance(c, ast.Call) and dotted(c.func) == "self.remove" and dotted(c.args[0]) == n.target.id for c in ast.walk(n)) for n in ast.walk(cl.node)) if cl else False
+        isinstance(c, ast.Call) and dotted(c.func) == "self.remove" and dotted(c.args[0]) == n.target.id for c in ast.walk(n))
+        and not any(isinstance(x, (ast.If, ast.Continue, ast.Break)) for x in ast.walk(n)) for n in ast.walk(clx))
+    ra = [c for c in ast.walk(clx) if isinstance(c, ast.Call) and dotted(c.func) == "self.remove_all"]
+    if ra and not good:
+        tags = [prog.const(a, cl.module) for c in ra for a in c.args]
+        good = tags == ["a:p"] and not any(isinstance(x, (ast.If, ast.For, ast.While)) for x in ast.walk(clx))
     if good:
         ctx.ok("R4.3", "CT_TextBody.clear_content", sample={"removes": "every a:p, nothing else"})
     else:
         ctx.violation("R4.3", "CT_TextBody.clear_content", "clear_content does not remove exactly the a:p children", file=body_c.file, line=cl.line if cl else body_c.line)
-    good = False
-    for n in ast.walk(tg.node):
-        if isinstance(n, ast.Return) and isinstance(n.value, ast.Call) and isinstance(n.value.func, ast.Attribute) and n.value.func.attr == "join" \
-                and prog.const(n.value.func.value, tg.module) == "\n":
-            g = n.value.args[0]
-            if isinstance(g, (ast.ListComp, ast.GeneratorExp)) and not g.generators[0].ifs and dotted(g.generators[0].iter) == "self.paragraphs" \
-                    and isinstance(g.elt, ast.Attribute) and g.elt.attr == "text":
-                good = True
-    if good:
-        ctx.ok("R4.3", "TextFrame.text.getter", sample={"reads": "LF.join(paragraph.text for every paragraph)"})
+    jr = join_reader(prog, tg)
+    if jr is None:
+        ctx.error("TextFrame.text.getter", "frame reader not recognised (expected LF.join(paragraph.text for every paragraph))")
+    elif jr["sep"] == "\n" and jr["elt"] == "_.text" and jr["terminal"] in ("self.paragraphs", "self._txBody.p_lst") and not jr["filtered"]:
+        ctx.ok("R4.3", "TextFrame.text.getter", sample={"reads": "LF.join(paragraph.text for every paragraph)", "source": jr["terminal"]})
     else:
-        ctx.violation("R4.3", "TextFrame.text.getter", "frame reader does not join every paragraph's text with LF", file=tg.file, line=tg.line)
+        ctx.violation("R4.3", "TextFrame.text.getter", "frame reader does not join every paragraph's text with LF (%s)" % jr, file=tg.file, line=tg.line)
     pp = tf.methods.get("paragraphs")
     good = any(isinstance(n, (ast.ListComp, ast.GeneratorExp)) and not n.generators[0].ifs and dotted(n.generators[0].iter) == "self._txBody.p_lst"
                for n in ast.walk(pp.node)) if pp else False
@@ -524,11 +547,33 @@ def run(ctx):
                               sorted(removed_pop), sorted(content), sorted(content - pop)), file=pr.file, line=pc.line)
         else:
             ctx.ok("R4.4", "_Paragraph.clear", sample={"removes": sorted(removed_pop)})
-    good = removed_pop is None and any(isinstance(n, ast.For) and dotted(n.iter) == "self._element.content_children" and any(
-        isinstance(c, ast.Call) and dotted(c.func) == "self._element.remove" and dotted(c.args[0]) == n.target.id for c in ast.walk(n))
-        and not any(isinstance(x, (ast.If, ast.Continue, ast.Break)) for x in ast.walk(n)) for n in ast.walk(pc.node)) if pc else False
-    others = [dotted(c.func) for c in ast.walk(pc.node) if isinstance(c, ast.Call) and (dotted(c.func) or "").startswith("self._element.")
-              and not dotted(c.func).endswith(".remove")] if pc else []
+    from sa import paths as P_
+    from sa.fielddeps import field_aliases
+
+    fa = field_aliases(prog, pr)
+
+    def N(e, al):
+        """normalised source: locals substituted, fields bound to the same object in __init__ written as one"""
+        import copy
+
+        class FA(ast.NodeTransformer):
+            def visit_Attribute(self_, x):
+                x = self_.generic_visit(x)
+                if isinstance(x.value, ast.Name) and x.value.id == "self" and x.attr in fa:
+                    return ast.Attribute(value=x.value, attr=fa[x.attr], ctx=x.ctx)
+                return x
+        return ast.unparse(FA().visit(ast.parse(P_.norm(e, al), mode="eval").body))
+
+    elem = "self." + fa.get("_element", "_element")
+    pcx = _expand(prog, pc, skip_names=("remove", "content_children")) if pc else None
+    pal = P_.aliases(pcx) if pcx is not None else {}
+    good = removed_pop is None and pcx is not None and any(
+        isinstance(n, ast.For) and N(n.iter, pal) == elem + ".content_children" and isinstance(n.target, ast.Name) and any(
+            isinstance(c, ast.Call) and isinstance(c.func, ast.Attribute) and c.func.attr == "remove" and N(c.func.value, pal) == elem
+            and c.args and dotted(c.args[0]) == n.target.id for c in ast.walk(n))
+        and not any(isinstance(x, (ast.If, ast.Continue, ast.Break)) for x in ast.walk(n)) for n in ast.walk(pcx))
+    others = [ast.unparse(c.func) for c in ast.walk(pcx) if isinstance(c, ast.Call) and isinstance(c.func, ast.Attribute)
+              and N(c.func.value, pal) == elem and c.func.attr != "remove"] if pcx is not None else []
     if removed_pop is not None:
         pass
     elif good and not others:
@@ -536,9 +581,15 @@ def run(ctx):
     else:
         ctx.violation("R4.4", "_Paragraph.clear", "clear() does not remove exactly the content children (other element calls: %s)" % others,
                       file=pr.file, line=pc.line if pc else pr.line)
-    body = [s for s in pset.node.body if not (isinstance(s, ast.Expr) and isinstance(s.value, ast.Constant))] if pset else []
-    seq = [dotted(s.value.func) for s in body if isinstance(s, ast.Expr) and isinstance(s.value, ast.Call)]
-    if seq == ["self.clear", "self._element.append_text"] and dotted(body[1].value.args[0]) == pset.node.args.args[1].arg:
+    if pset is None:
+        raise AnalysisError("anchor vanished: _Paragraph.text setter")
+    psx = _expand(prog, pset, skip_names=("clear", "append_text"))
+    sal = P_.aliases(psx)
+    body = [s for s in psx.body if not (isinstance(s, ast.Expr) and isinstance(s.value, ast.Constant))]
+    seq = [N(s.value.func, sal) for s in body if isinstance(s, ast.Expr) and isinstance(s.value, ast.Call)]
+    calls_ = [s.value for s in body if isinstance(s, ast.Expr) and isinstance(s.value, ast.Call)]
+    if seq == ["self.clear", elem + ".append_text"] and dotted(calls_[1].args[0]) == pset.node.args.args[1].arg \
+            and not any(isinstance(x, (ast.If, ast.For, ast.While)) for x in ast.walk(psx)):
         ctx.ok("R4.4", "_Paragraph.text.setter", sample={"steps": "clear(); append_text(value)"})
     else:
         ctx.violation("R4.4", "_Paragraph.text.setter", "paragraph assignment is not clear() followed by append_text(value) (%s)" % seq,
